@@ -5,7 +5,8 @@ PROPS = {}
 
 PROPS["C07"] = {
     "title": "Result codecs round-trip every result and follow the documented layout",
-    "units": [{"name": "codec", "pkg": "lib", "run": "^TestC07", "scale_thorough": 2}],
+    "units": [{"name": "codec", "pkg": "lib", "run": "^TestC07", "scale_thorough": 2},
+              {"name": "encodecmd", "pkg": "main", "run": "^TestC08EncodeChain", "env": {"VERIF_AS": "C07"}, "shards_quick": 2, "shards_thorough": 8}],
     "rule": "rapid draws sequences of 0..12 heterogeneous vegeta.Result values (fields enumerated by reflection; "
             "hostile UTF-8 text without CR-LF pairs, boundary-weighted integers, ns timestamps 1970-2200 in assorted "
             "zones, nil/empty/large bodies, nil/empty/multi-valued canonical headers); each is encoded with gob, CSV "
@@ -472,7 +473,8 @@ _ADDED = {
            "Connections / KeepAlive / HTTP2 against a local server - result end >= handler finish, latency >= service time (causal bounds).",
     "C06": " Added since: HEAD-style responses (Content-Length announced, no body); C06.cli: the attack command end to end against a raw "
            "TCP server with -chunked, -max-body, -redirects, -name.",
-    "C07": " Added since: C07.writer - streams produced by an independent writer of the documented layout (text columns quoted, LF/CRLF; "
+    "C07": " Added since: C07.chain - the encode command (encode.go is among the property's anchors) re-encodes generated files through "
+           "chains of formats and the last file must decode to the original sequence; C07.writer - streams produced by an independent writer of the documented layout (text columns quoted, LF/CRLF; "
            "encoding/json objects) are read by vegeta's explicit and auto-detected decoders as the same results.",
     "C08": " Added since: stale longer files at the output path of an encode step, a named pipe fed in odd chunks as first input; "
            "C08.detectcmd: files from another producer (white space before JSON objects, every CSV field quoted) and files in no format "
